@@ -20,6 +20,12 @@ def tagBody (key : Key) (inp : FlatMap) : FlatMap := [(key, hex32 (fnv32 (FlatMa
 def pick (table : List (List Key)) (v : FlatMap) : List Key :=
   if table.isEmpty then [] else table.getD ((fnv32 (FlatMap.render v)).toNat % table.length) []
 
+/-- prefix-reading (stream) branches decide on the key set of the first chunk, which is the
+    same for every chunk of a single-key producer (so the choice is chunking-invariant) -/
+def pickKeys (table : List (List Key)) (v : FlatMap) : List Key :=
+  if table.isEmpty then [] else
+  table.getD ((fnv32 (v.foldl (fun s kv => s ++ kv.1 ++ ",") "")).toNat % table.length) []
+
 mutual
 partial def parseBody (key : Key) (j : Json) : JE (FlatMap → Except Err FlatMap) := do
   match (← J.str j "op") with
@@ -50,7 +56,7 @@ partial def parseGraph (j : Json) : JE (GraphDef FlatMap) := do
     let cond : FlatMap → Except Err (List Key) := fun v =>
       match failId with
       | some id => .error { cls := .branchUser id }
-      | none => .ok (pick table v)
+      | none => .ok (if J.boolD b "stream" false then pickKeys table v else pick table v)
     pure (from_, ({ ends := ends, cond := cond } : Branch FlatMap)))
   pure { dag := mode == "dag", eager := false, maxSteps := J.natD j "maxSteps" 0,
          nodes := nodes, edges := edges, branches := branches }
